@@ -26,6 +26,12 @@ INTERESTING = ['"', '\\', '`', ',', '\n', '\r', ' ', ':', '@', '[', ']', '{', '}
 ALPHABET = list('abcNMRTF019 ,:"\\`@[]{}<>()-._+eEZ/$%\n\r\t') + [u'\u00e9', u'\U0001f600', 'ver:"3.0"', 'ver:"2.0"', '\n\n', 'C(', 'Bin(',
                                                                   'INF', 'NaN', 'NA', '2020-01-01', 'T12:00:00', 'Z UTC', '<<', '>>']
 BUDGET_PER_KIB = 2000000
+# Reason codes of the independent reader that are raised *inside* a string / URI literal it has already entered, so
+# they cannot be an artefact of the two readers framing the surrounding syntax differently.  (The other listed categories
+# are judged only on the documents broken by construction: for arbitrary mutants the strict reader's reason code can
+# be a leniency of hszinc outside the listed categories - a blank after '<<', a trailing blank on the header line,
+# 'ver:"2.9"' selecting the 3.0 grammar - and judging those would raise false alarms.)
+CERTAIN = {'illegal-string-escape', 'illegal-uri-escape', 'bad-unicode-escape'}
 
 _steps = [0]
 _tool = None
@@ -163,8 +169,15 @@ class Judge(object):
             # mis-parse detector: the independent strict reader accepts too => same grids
             try:
                 ref = refzinc.read(text)
-            except refzinc.RefReject:
-                ctx.count('accepted by hszinc only (leniency, not judged)')
+            except refzinc.RefReject as e:
+                if e.code in CERTAIN:
+                    # the strict reader rejects it for one of the reasons the property lists: hszinc must reject it too
+                    ctx.count('mutant broken in a listed way: ' + e.code)
+                    ctx.violation({'part': 'broken', 'format': 'zinc', 'kind': e.code, 'symptom': 'accepted-broken', 'features': ['how=' + how]},
+                                  'document broken in a listed way (%s at offset %d) was accepted: %r' % (e.code, e.pos, text[:250]),
+                                  {'text': D._enc_s(text), 'category': e.code})
+                else:
+                    ctx.count('accepted by hszinc only (leniency, not judged)')
                 return outcome
             except Exception:
                 return outcome
@@ -232,10 +245,11 @@ def broken_docs(r):
         i = only_str.rfind('"')
         out.append(('unterminated-string', only_str[:i] + only_str[i + 1:]))
         out.append(('unterminated-string', only_str[:i] + only_str[i + 1:].rstrip('\n')))
-        for esc in ('\\q', '\\x41', "\\'", '\\u12', '\\u12G4', '\\ ', '\\0', '\\a', '\\U', '\\`'):
+        for esc in ('\\q', '\\x41', "\\'", '\\u12', '\\u12G4', '\\ ', '\\0', '\\a', '\\`', '\\N', '\\T', '\\B', '\\F', '\\R',
+                    '\\:', '\\/', '\\#', '\\@', '\\&', '\\e', '\\v', '\\,'):
             out.append(('illegal-string-escape', text.replace('"MARK"', '"MA%sRK"' % esc, 1)))
             out.append(('illegal-string-escape', only_str.replace('"MARK"', '"MA%sRK"' % esc, 1)))
-        for esc in ('\\q', '\\x41', '\\"', '\\u12', '\\ ', '\\$', '\\0'):
+        for esc in ('\\q', '\\x41', '\\"', '\\u12', '\\ ', '\\$', '\\0', '\\N', '\\T', '\\B', '\\F', '\\R', '\\e', '\\,', '\\<'):
             out.append(('illegal-uri-escape', text.replace('`MARK`', '`MA%sRK`' % esc, 1)))
         for badname in ('Mk', '9k', '_k', 'MK', '-k'):
             out.append(('illegal-tag-name', text.replace(' mk:', ' %s:' % badname, 1)))
